@@ -9,7 +9,8 @@ rows = ["%d changes to gorilla/websocket were written by sub-agents that were gi
         "two per property (`seeded/Cxx-n`); round 2, after the machinery had been strengthened and three more defects",
         "repaired: three per property, asked for mechanisms a reviewer would not think of first (`seeded/Cxx-r2n`);",
         "round 3: thirty more, each agent confined to one file other than conn.go (`seeded/Cxx-r3<file>n`); round 4: twenty",
-        "more, cooperating edits and history-dependent leaks (`seeded/Cxx-r4n`).",
+        "more, cooperating edits and history-dependent leaks (`seeded/Cxx-r4n`); round 5: twenty more for the ten",
+        "properties round 4 had left out, same brief plus rarely used entry points and non-default options (`seeded/Cxx-r5n`).",
         "Each was confirmed (demo passes on the clean tree and fails with the change; suite passes with it), stored",
         "with `patch.diff`, `demo_test.go`, `meta.json`, and run against the property's quick check with",
         "`tools/seedrun.sh` (apply to /repo, check, `git checkout -- .`). `tools/seedall.py` re-runs them all and",
@@ -97,7 +98,25 @@ source is not the connection), C17-r42 (client read buffers below 125 bytes), C2
 returned in place of the connection's own buffer after another connection had taken it: the interleaved
 multi-connection harness C02m shares one BufferPool in half of its cases and is judged by C20's predicates
 too). C12-r23 / C12-r3util123 (backslash escapes in quoted extension parameters) are now concrete inputs as
-well: the Spec's list splitting knows quoted strings.""")
+well: the Spec's list splitting knows quoted strings.
+
+Round 5: twenty more (`seeded/Cxx-r5n`) for C01 C03 C05 C07 C09 C11 C14 C16 C18 C19, same brief as round 4 plus
+"reachable only through a rarely used public entry point or a non-default option". Six were missed at first:
+C01-r52 (JoinMessages dropping the bytes that arrive together with io.EOF: JoinMessages now has a model,
+Model/Join.v, theorems C03_join_*, and a call-by-call correspondence harness C03k with failures glued to the last
+bytes and buffers above the read buffer; C03k also runs under C01), C03-r52 (messageReader.Close detaching the
+reader + flateReadWrapper.Close closing its source: a BFINAL-terminated compressed message is reported complete
+before its final frame arrived; new harness C03e records how many stream bytes the transport had delivered when
+each message was returned, clause 182), C05-r52 (Reads on a failed reader counting towards NextReader's 1000-call
+panic: reads after the failure followed by 1001 NextReader calls are generated, clause 20 = panic before the
+documented threshold), C07-r51 (SetPongHandler(nil) no longer restoring the default: every fourth default-handler
+reader case now calls Set*Handler(nil) first), C09-r52 (a recorded write timeout treated as retryable, so the
+close and later writes go out: C09w programs now may hit a transport failure before the close), C14-r52 (the
+deprecated NewClient skipping the URL checks: a fifth of the C14 cases go through NewClient, clause 119 = a
+non-ws/wss URL or one with userinfo not refused). C01-r51 (write deadline cached in Conn.write but not in
+WriteControl) was caught by the correspondence only; clause 75 (the deadline armed on the transport when bytes
+are written is the one in force for that frame) makes it a concrete input for C01 and C10. A panic raised on
+the calling goroutine of any case is now a kind-70 tape (clause 50) instead of the end of the harness run.""")
 sec = open('/verif/tools/design_sec11.md').read().replace('SEEDED_TABLE', '\n'.join(rows))
 d = open('/verif/DESIGN.md').read()
 d = re.sub(r'## 11\. As built.*?(?=## Appendix A\.)', '', d, flags=re.S)
